@@ -73,7 +73,18 @@ CHECKS.update({
             "Trusted: formulas as documented (docs/*.rst, docstrings) coded in vp/gen/results.py; where docs leave a choice the numpy/pandas defaults are accepted (listed in the evidence).", "DESIGN.md §3 C19"),
 })
 
-READY = ["C01", "C03", "C04", "C05", "C10", "C11", "C13", "C14", "C17", "C18", "C19", "C20"]
+CHECKS.update({
+    "C06": ("exploration",
+            "runtime contracts on the real public API (vp.contracts: K-IMM deep argument snapshots compared after every call - also when it raises -, K-WF well-formedness of returned models, K-EQ equality/hash/copy laws), driven by histories, docstring examples, a signature sweep and an aliasing probe",
+            "Every function of pharmpy.modeling.__all__ (and Model.update_source / write_files) is wrapped from outside the repository and rebound in all pharmpy modules; thousands of monitored calls with arguments that are products of earlier calls and share DataFrames. Evidence lists the distinct functions reached.",
+            "Trusted: the snapshot definition (dataset row hashes, columns, dtypes, component dicts, control stream text); well-formedness in delta form w.r.t. the argument models.", "DESIGN.md §3 C06, §2.2"),
+    "C07": ("exploration",
+            "differential runtime oracle: vp.ir_eval evaluation of the model before and after each preserving refactoring at sampled inputs; extractors vs direct evaluation and central finite differences; closed-form ODE solutions vs the vector field",
+            "Corpus models and products of <= 3 random transformation steps are refactored by 15 preserving transformations and compared on vector field, F and dependent variables; gradient / prediction extractors are compared with direct evaluation and finite differences; solve_ode_system's closed form must satisfy the original ODE.",
+            "Trusted: vp.ir_eval in 50-digit arithmetic (points whose value changes between 50 and 120 digits are not judged); parameters matched by name.", "DESIGN.md §3 C07"),
+})
+
+READY = ["C01", "C03", "C04", "C06", "C07", "C05", "C10", "C11", "C13", "C14", "C17", "C18", "C19", "C20"]
 
 NOT_BUILT = "check not built yet in this session (design in DESIGN.md); not claimed"
 
@@ -115,7 +126,7 @@ def main():
         "engines": [
             {"name": "farm", "path": "vp/farm.py", "serves_properties": sorted(CHECKS),
              "kind_free_text": "fork-based worker farm running generated cases against the real pharmpy code under monitors; merges monitor counters into evidence"},
-            {"name": "denote", "path": "vp/denote.py", "serves_properties": [p for p in ("C01", "C02", "C07", "C08", "C09") if p in READY],
+            {"name": "denote", "path": "vp/denote.py", "serves_properties": [p for p in ("C01", "C02", "C04", "C07", "C08", "C09") if p in READY],
              "kind_free_text": "semantic oracle: vp.nmtran_ref (independent NM-TRAN interpreter) and vp.ir_eval (independent evaluator of the model IR) compared at sampled environments in 50-digit arithmetic"},
         ],
         "checks": checks,
